@@ -1,7 +1,8 @@
 (* C18 property theorems: trace filters are pure row selections with the documented predicates. *)
 From HTA.lib Require Import Base ListExtra Regex.
 From HTA.model Require Import C18_Model.
-From HTA.proof Require Import C18_Proofs.
+From HTA.gen Require Import FilterRules_gen.
+From HTA.proof Require Import C18_RulesTie C18_Proofs.
 Open Scope Z_scope.
 
 (* every filter, composites included, returns a subsequence of its input (rows, order, contents kept) *)
@@ -60,3 +61,12 @@ Example C18_nonvacuous :
   encode_C18 true ["aten::add"] [FIterIdx [1]; FName (Cat (Lit "aten::") (Star Any)); FCpu; FComposite [FTime 0 8; FGpu]; FIter [-1; 4]] fr18
   = [[3]; [0; 3]; [0; 1; 3]; [2]; [3; 4]].
 Proof. vm_compute. reflexivity. Qed.
+
+(* the tie by regeneration: the time-range, device-row and host-row predicates of the model are the masks read out of TimeRangeFilter,
+   _filter_gpu_kernels_with_cuda_sync, GPUKernelFilter and CPUOperatorFilter (with and without a symbol table) *)
+Theorem C18_predicates_follow_source : forall with_tab tab l x,
+  (forall lo hi, pred with_tab tab (FTime lo hi) l x = time_pred_gen lo hi (fst x)) /\
+  pred with_tab tab FGpu l x = (if with_tab then xorb gpu_table_negated_gen (dev_pred_table_gen (fst x)) else gpu_pred_notable_gen (fst x)) /\
+  pred with_tab tab FCpu l x = (if with_tab then xorb cpu_table_negated_gen (dev_pred_table_gen (fst x)) else cpu_pred_notable_gen (fst x)).
+Proof. exact filter_predicates_are_generated. Qed.
+Print Assumptions C18_predicates_follow_source.
